@@ -266,6 +266,270 @@ def set_random(rng, kind, nops, nocopy=False):
     return {"kind": "%s %d" % (kind, m), "ops": ops, "family": "random"}
 
 
+# ---- values
+def dy(rng, zero=0.12):
+    """small dyadic value k/8 (exact in double arithmetic)"""
+    if rng.random() < zero:
+        return "0/1"
+    k = rng.choice([-16, -12, -8, -5, -4, -3, -2, -1, 1, 2, 3, 4, 5, 8, 12, 16, 24])
+    d = rng.choice([1, 1, 2, 4, 8])
+    from fractions import Fraction
+    f = Fraction(k, d)
+    return "%d/%d" % (f.numerator, f.denominator)
+
+
+def rat(rng, zero=0.12):
+    if rng.random() < zero:
+        return "0/1"
+    from fractions import Fraction
+    f = Fraction(rng.randint(-9, 9) or 1, rng.choice([1, 1, 2, 3, 5, 7]))
+    return "%d/%d" % (f.numerator, f.denominator)
+
+
+TINY = "1/1152921504606846976"       # 2^-60 < epsilon = 1e-16
+
+
+def vec_random(rng, kind, nops):
+    n = rng.choice([1, 3, 4, 6])
+    val = (lambda z=0.12: dy(rng, z)) if kind == "vecd" else (lambda z=0.12: rat(rng, z))
+    scal = lambda: rng.choice(["2/1", "1/2", "-1/1", "-2/1", "4/1", "1/4", "1/1"] + (["3/1"] if rng.random() < 0.1 else []) +
+                              ([] if kind == "vecd" else ["3/1", "-5/3", "2/7"]))
+    D = lambda: "D%d" % rng.randrange(2)
+    S = lambda: "S%d" % rng.randrange(2)
+    X = lambda: "X%d" % rng.randrange(2)
+    ix = lambda: rng.randrange(-1 if rng.random() < 0.03 else 0, n + (1 if rng.random() < 0.05 else 0))
+    fresh = [0] * 2
+    ops = []
+    table = [
+        (6, lambda: "dset %s %d %s" % (D(), ix(), val())), (1, lambda: "dclear " + D()), (2, lambda: "dadd %s %s" % (D(), D())),
+        (2, lambda: "dsub %s %s" % (D(), D())), (2, lambda: "ddot %s %s" % (D(), D())), (2, lambda: "dmadd %s %s %s" % (D(), scal(), D())),
+        (1, lambda: "dscale %s %s" % (D(), scal())), (1, lambda: "dmaxabs " + D()), (1, lambda: "dlen2 " + D()),
+        (0.5, lambda: "dredim %s %d" % (D(), rng.randrange(0, 8))),
+        (3, lambda: "daddsv %s %s" % (D(), S())), (2, lambda: "dsubsv %s %s" % (D(), S())), (2, lambda: "dassignsv %s %s" % (D(), S())),
+        (2, lambda: "dsetsv %s %s" % (D(), S())), (2, lambda: "ddotsv %s %s" % (D(), S())), (2, lambda: "sdotd %s %s" % (S(), D())),
+        (3, lambda: "dmaddsv %s %s %s" % (D(), scal(), S())), (2, lambda: "dmsubsv %s %s %s" % (D(), scal(), S())),
+        (2, lambda: "daddss %s %s" % (D(), X())), (1, lambda: "dsubss %s %s" % (D(), X())), (2, lambda: "ddotss %s %s" % (D(), X())),
+        (1, lambda: "dsetss %s %s" % (D(), X())), (1, lambda: "dassignss %s %s" % (D(), X())), (2, lambda: "dmaddss %s %s %s" % (D(), scal(), X())),
+        (8, lambda: "sadd %s %d %s" % (S(), ix(), val())),
+        (2, lambda: "saddn %s %s" % (S(), " ".join("%d %s" % (rng.randrange(n), val()) for _ in range(rng.randrange(0, 4))))),
+        (2, lambda: "srm %s %d" % (S(), rng.randrange(-1, 5))), (1, lambda: "srmrs %s %d %d" % (S(), rng.randrange(0, 3), rng.randrange(0, 4))),
+        (1, lambda: "sclear " + S()), (2, lambda: "sscale %s %s" % (S(), scal())), (3, lambda: "ssort " + S()),
+        (2, lambda: "sassign %s %s" % (S(), S())), (2, lambda: "sfromd %s %s" % (S(), D())),
+        (3, lambda: "sdot %s %s" % (S(), S())), (1, lambda: "smaxabs " + S()), (1, lambda: "sminabs " + S()), (1, lambda: "slen2 " + S()),
+        (1, lambda: "sdim " + S()), (1, lambda: "spos %s %d" % (S(), ix())), (1, lambda: "sget %s %d" % (S(), ix())),
+        (1, lambda: "stimes %s %s %s" % (S(), S(), scal() if rng.random() < 0.9 else "0/1")), (1, lambda: "sunit %s %d" % (S(), rng.randrange(n))),
+        (5, lambda: "xset %s %d %s" % (X(), ix(), val() if rng.random() < 0.93 else TINY)), (2, lambda: "xadd %s %d %s" % (X(), ix(), val(0.0))),
+        (2, lambda: "xclearidx %s %d" % (X(), ix())), (1, lambda: "xclearnum %s %d" % (X(), rng.randrange(0, 4))), (1, lambda: "xclear " + X()),
+        (3, lambda: "xsetup " + X()), (2, lambda: "xunsetup " + X()), (1, lambda: "xscale %s %s" % (X(), scal())),
+        (2, lambda: "xadddv %s %s" % (X(), D())), (1, lambda: "xsubdv %s %s" % (X(), D())), (1, lambda: "xmadddv %s %s %s" % (X(), scal(), D())),
+        (3, lambda: "xaddsv %s %s" % (X(), S())), (2, lambda: "xsubsv %s %s" % (X(), S())), (3, lambda: "xsetsv %s %s" % (X(), S())),
+        (4, lambda: "xmaddsv %s %s %s" % (X(), scal(), S())), (2, lambda: "xaddss %s %s" % (X(), X())), (2, lambda: "xsubss %s %s" % (X(), X())),
+        (1, lambda: "xassign %s %s" % (X(), X())), (0.5, lambda: "xredim %s %d" % (X(), rng.randrange(1, 8))),
+    ]
+    w = [t[0] for t in table]
+    for _ in range(nops):
+        ops.append(rng.choices(table, weights=w)[0][1]())
+    return {"kind": "%s %d" % (kind, n), "ops": ops, "family": "random"}
+
+
+def vset_random(rng, kind, nops):
+    nsc = 0 if kind == "svs" else 3
+    ops = []
+    ent = lambda: " ".join("%d %s" % (rng.randrange(0, 6), dy(rng)) for _ in range(rng.randrange(0, 4)))
+    for _ in range(nops):
+        r = rng.random()
+        n = rng.randrange(0, 8)
+        if r < 0.30:
+            ops.append(("add " + " ".join(dy(rng) for _ in range(nsc)) + " " + ent()).strip())
+        elif r < 0.40:
+            ops.append("add2 %d %s" % (n, ent()))
+        elif r < 0.45:
+            ops.append("xtend %d %d" % (n, rng.randrange(0, 12)))
+        elif r < 0.50 and nsc:
+            ops.append("setscal %d %d %s" % (n, rng.randrange(3), dy(rng)))
+        elif r < 0.60:
+            ops.append("rm %d" % n)
+        elif r < 0.66:
+            ops.append("rmk %d" % n)
+        elif r < 0.75:
+            ops.append("rmp " + " ".join(str(rng.choice([-1, -1, 0, 3])) for _ in range(rng.randrange(0, 12))))
+        elif r < 0.78:
+            ops.append("rmn " + " ".join(str(rng.randrange(0, 6)) for _ in range(rng.randrange(0, 3))))
+        elif r < 0.80:
+            ops.append("clear")
+        elif r < 0.86:
+            ops.append("remax %d" % rng.randrange(0, 30))
+        elif r < 0.91:
+            ops.append("memremax %d" % rng.randrange(0, 60))
+        elif r < 0.95:
+            ops.append("mempack")
+        elif r < 0.975:
+            ops.append("copy")
+        else:
+            ops.append("assign %d" % rng.randrange(0, 12))
+    return {"kind": "%s %d %d" % (kind, rng.choice([1, 2, 3, 8]), rng.choice([1, 4, 16])), "ops": ops, "family": "random"}
+
+
+def idx_random(rng, kind, nops):
+    ops = []
+    for _ in range(nops):
+        r = rng.random()
+        if r < 0.40:
+            ops.append("addidx %d" % rng.randrange(0, 8))
+        elif r < 0.50:
+            ops.append("addn " + " ".join(str(rng.randrange(0, 8)) for _ in range(rng.randrange(0, 4))))
+        elif r < 0.68:
+            ops.append("rm %d" % rng.randrange(-1, 7))
+        elif r < 0.80:
+            a = rng.randrange(0, 5)
+            ops.append("rmr %d %d" % (a, a + rng.randrange(0, 3)))
+        elif r < 0.84:
+            ops.append("clear")
+        elif r < 0.92:
+            ops.append("setmax %d" % rng.randrange(0, 12))
+        elif r < 0.96:
+            ops.append("copy")
+        else:
+            ops.append("assign %d" % rng.randrange(0, 6))
+    return {"kind": "%s %d" % (kind, rng.choice([1, 3, 5, 9])), "ops": ops, "family": "random"}
+
+
+def ns_random(rng, nops):
+    ops = []
+    for _ in range(nops):
+        r = rng.random()
+        if r < 0.40:
+            ops.append("add %d" % rng.randrange(0, 8))
+        elif r < 0.50:
+            ops.append("rmname %d" % rng.randrange(0, 8))
+        elif r < 0.58:
+            ops.append("rmnum %d" % rng.randrange(0, 8))
+        elif r < 0.64:
+            ops.append("rmkey %d" % rng.randrange(0, 8))
+        elif r < 0.74:
+            ops.append("rmnums " + " ".join(str(x) for x in rng.sample(range(0, 7), rng.randrange(0, 4))))
+        elif r < 0.80:
+            ops.append("rmkeys " + " ".join(str(x) for x in rng.sample(range(0, 7), rng.randrange(0, 4))))
+        elif r < 0.86:
+            ops.append("rmp " + " ".join(str(rng.choice([-1, 0, 2])) for _ in range(rng.randrange(0, 9))))
+        elif r < 0.88:
+            ops.append("clear")
+        elif r < 0.92:
+            ops.append("remax %d" % rng.randrange(0, 30))
+        elif r < 0.96:
+            ops.append("memremax %d" % rng.randrange(0, 80))
+        else:
+            ops.append("mempack")
+    return {"kind": "ns %d %d" % (rng.choice([1, 2, 3, 10]), rng.choice([1, 4, 8, 64])), "ops": ops, "family": "random"}
+
+
+def ht_random(rng, nops):
+    ops = []
+    for _ in range(nops):
+        r = rng.random()
+        if r < 0.45:
+            ops.append("add %d %d" % (rng.randrange(-2, 8), rng.randrange(100)))
+        elif r < 0.80:
+            ops.append("rm %d" % rng.randrange(-2, 8))
+        elif r < 0.84:
+            ops.append("clear")
+        elif r < 0.92:
+            ops.append("remax %d" % rng.randrange(-1, 30))
+        elif r < 0.96:
+            ops.append("copy")
+        else:
+            ops.append("assign")
+    return {"kind": "ht %d" % rng.choice([1, 2, 3, 7, 16]), "ops": ops, "family": "random"}
+
+
+def arr_random(rng, kind, nops):
+    ops = []
+    v = [100]
+
+    def nv():
+        v[0] += 1
+        return v[0]
+    for _ in range(nops):
+        r = rng.random()
+        if r < 0.25:
+            ops.append("append %d" % nv())
+        elif r < 0.35:
+            ops.append("appendn " + " ".join(str(nv()) for _ in range(rng.randrange(0, 4))))
+        elif r < 0.50:
+            # Array::insert is a recorded finding: rarely, so that the other operations are reached
+            if kind != "ar" or rng.random() < 0.15:
+                ops.append("insert %d %s" % (rng.randrange(0, 8), " ".join(str(nv()) for _ in range(rng.randrange(0, 3)))))
+        elif r < 0.68:
+            ops.append("remove %d %d" % (rng.randrange(0, 8), rng.randrange(0, 4)))
+        elif r < 0.76:
+            ops.append("removelast %d" % rng.randrange(0, 4))
+        elif r < 0.79:
+            ops.append("clear")
+        elif r < 0.88:
+            ops.append("resize %d" % rng.randrange(0, 12))
+        elif r < 0.93:
+            ops.append("remax %d" % rng.randrange(0, 30))
+        elif r < 0.97:
+            ops.append("copy")
+        else:
+            ops.append("assign %d" % rng.randrange(0, 6))
+    return {"kind": kind, "ops": ops, "family": "random"}
+
+
+def list_random(rng, kind, nops):
+    ops = []
+    for _ in range(nops):
+        r = rng.random()
+        x, y = rng.randrange(8), rng.randrange(8)
+        if r < 0.25:
+            ops.append("append %d" % x)
+        elif r < 0.40:
+            ops.append("prepend %d" % x)
+        elif r < 0.60:
+            ops.append("insert %d %d" % (x, y))
+        elif r < 0.85:
+            ops.append("remove %d" % x)
+        elif r < 0.97:
+            ops.append("removenext %d" % x)
+        else:
+            ops.append("clear")
+    return {"kind": kind, "ops": ops, "family": "random"}
+
+
+def exhaustive(kind, alphabet, length, prefixes=([],)):
+    for pre in prefixes:
+        for seq in itertools.product(alphabet, repeat=length):
+            yield {"kind": kind, "ops": list(pre) + list(seq), "family": "exhaustive"}
+
+
+# directed cases: every recorded finding once, in isolation (the random families draw these operations rarely or not at
+# all, because the first disagreement ends the comparison of a case)
+PROBES = [
+    ("csp 3", ["add 1", "remax 5", "add 2", "add 3", "remax 3"]),
+    ("csp 3", ["add 1", "add 2", "rm 0", "copy"]),
+    ("csp 2", ["add 1", "add 2", "assign 1"]),
+    ("vecd 4", ["xset X0 1 3/1", "xset X0 3 1/2", "sfromss S0 X0"]),
+    ("vecr 4", ["xset X0 1 3/1", "xset X0 3 1/2", "sfromss S0 X0"]),
+    ("vecd 4", ["sadd S0 0 1/1", "sadd S0 1 2/1", "sadd S0 2 3/1", "sadd S0 3 4/1", "srmr S0 1 2"]),
+    ("vecd 4", ["sadd S0 0 1/1", "sadd S0 1 2/1", "sadd S0 2 3/1", "sadd S0 3 4/1", "sadd S0 1 5/1", "srmr S0 1 3"]),
+    ("vecd 4", ["sadd S0 0 1/1", "sadd S0 1 2/1", "sadd S0 2 3/1", "srmr S0 1 2"]),
+    ("vecd 4", ["xset X0 3 1/1", "xset X0 1 1/1", "xset X1 1 1/1", "xset X1 3 1/1", "xdot X0 X1"]),
+    ("lprs 2 4", ["add 0/1 1/1 2/1 0 1/1", "add 3/1 4/1 5/1 1 1/1", "add 6/1 7/1 8/1 2 1/1", "rmn 0"]),
+    ("lpcs 2 4", ["add 0/1 1/1 2/1 0 1/1", "add 3/1 4/1 5/1 1 1/1", "add 6/1 7/1 8/1 2 1/1", "rmn 0"]),
+    ("svs 2 4", ["add", "add", "copy"]),
+    ("svs 2 4", ["add", "add", "assign 3"]),
+    ("lprs 2 4", ["add 1/1 2/1 3/1", "add 4/1 5/1 6/1", "copy"]),
+    ("idx 5", ["addidx 3", "addidx 1", "addidx 4", "rmr 1 2"]),
+    ("idx 5", ["addidx 3", "addidx 1", "addidx 4", "rmr 0 2"]),
+    ("didx 2", ["addidx 3", "addidx 1", "addidx 4", "rmr 1 2"]),
+    ("ar", ["append 1", "append 2", "append 3", "insert 1 9 8"]),
+    ("ar", ["append 1", "append 2", "insert 2 9"]),
+    ("ns 2 8", ["add 1", "add 2", "add 3", "add 4", "add 5", "rmnums 0 1 4"]),
+    ("ns 2 8", ["add 1", "add 2", "add 3", "add 4", "rmnums 2 3"]),
+    ("ns 2 8", ["add 1", "add 2", "add 3", "add 4", "rmnums 3 0 1"]),
+]
+
+
 def generate(ck):
     rng = ck.rng
     quick = ck.tier == "quick"
@@ -277,6 +541,8 @@ def generate(ck):
             ls = [l.rstrip("\n") for l in open(os.path.join(cdir, f)) if l.strip() and not l.startswith("#")]
             if ls:
                 cases.append({"kind": ls[0], "ops": ls[1:], "family": "corpus"})
+    for kind, ops in PROBES:
+        cases.append({"kind": kind, "ops": list(ops), "family": "probe"})
     # bounded-exhaustive DataSet / ClassSet: universe of 3 elements
     al = set_alphabet(3)
     pre3 = [[], ["add", "add", "add"], ["add", "add", "add", "rm 0"], ["add", "add", "add", "rmp 0 -1 0"]]
@@ -284,16 +550,48 @@ def generate(ck):
         if quick:
             sub = [a for a in al if a not in ("remax 0", "assign 1", "rmkn 0", "rmn 0", "rm 2")]
             if kind == "cs":
-                sub = rng.sample(sub, 9)
+                sub = [a for a in rng.sample(sub, 9) if a != "copy"] + ["add"]
             cases += list(set_exhaustive(kind, 3, 3, pre3, sub))
             cases += list(set_exhaustive(kind, 3, 2, pre3, al))
         else:
-            cases += list(set_exhaustive(kind, 3, 4, pre3, [a for a in al if a not in ("remax 0", "assign 1", "rmkn 0")]))
+            sub = [a for a in al if a not in ("remax 0", "assign 1", "rmkn 0")]
+            cases += list(set_exhaustive(kind, 3, 4, pre3, sub if kind == "ds" else [a for a in sub if a != "copy"]))
             cases += list(set_exhaustive(kind, 3, 3, pre3, al))
+    # bounded-exhaustive short sequences for the small containers
+    L = 3 if quick else 4
+    idx_al = ["addidx 0", "addidx 1", "addidx 2", "rm 0", "rm 1", "rmr 0 0", "rmr 0 1", "rmr 1 1", "clear", "addn 3 4"]
+    cases += list(exhaustive("idx 3", idx_al, L, ([], ["addidx 5", "addidx 6", "addidx 7"])))
+    cases += list(exhaustive("didx 1", idx_al + ["setmax 1", "copy"], L, ([], ["addidx 5", "addidx 6", "addidx 7"])))
+    ns_al = ["add 0", "add 1", "add 2", "rmname 0", "rmname 1", "rmnum 0", "rmnum 1", "rmkey 0", "rmkey 2", "rmnums 0 1", "rmnums 1 2",
+             "rmkeys 0 1", "rmp -1 0", "rmp 0 -1 -1", "clear", "mempack", "memremax 0", "remax 0"]
+    cases += list(exhaustive("ns 1 2", ns_al, L, ([], ["add 0", "add 1", "add 2"], ["add 3", "add 4", "rmname 3", "add 5"])))
+    ht_al = ["add 0 1", "add 1 2", "add 4 3", "add 7 4", "rm 0", "rm 1", "rm 4", "clear", "remax 2", "remax -1", "copy"]
+    cases += list(exhaustive("ht 1", ht_al, L, ([], ["add 0 9", "add 1 8", "add 4 7"])))
+    cases += list(exhaustive("ht 3", ht_al, L - 1, ([], ["add 0 9", "add 1 8", "add 4 7", "rm 1"])))
+    ls_al = ["append 0", "append 1", "prepend 2", "insert 3 0", "insert 4 1", "remove 0", "remove 1", "remove 2", "removenext 0", "removenext 2", "clear"]
+    for kind in ("isl", "idl"):
+        cases += list(exhaustive(kind, ls_al, L, ([], ["append 5", "append 6", "append 7"])))
+    ar_al = ["append 1", "appendn 2 3", "insert 0 4", "insert 1 5 6", "remove 0 1", "remove 1 2", "removelast 1", "resize 1", "resize 4", "clear", "copy", "remax 1"]
+    for kind in ("da", "ca"):
+        cases += list(exhaustive(kind, ar_al, L, ([], ["appendn 7 8 9"])))
+    cases += list(exhaustive("ar", [a for a in ar_al if not a.startswith("insert")], L, ([], ["appendn 7 8 9"])))
+    # random long sequences
     nr = 150 if quick else 4000
     for i in range(nr):
         kind = "ds" if i % 2 == 0 else "cs"
-        cases.append(set_random(rng, kind, rng.randrange(5, 300), nocopy=(kind == "cs" and i % 4 == 1)))
+        cases.append(set_random(rng, kind, rng.randrange(5, 300), nocopy=(kind == "cs" and i % 4 != 3)))
+    nv = 500 if quick else 15000
+    for i in range(nv):
+        kind = "vecd" if i % 2 == 0 else "vecr"
+        cases.append(vec_random(rng, kind, rng.randrange(3, 40 if kind == "vecd" else 80)))
+    nm = 120 if quick else 3000
+    for i in range(nm):
+        cases.append(vset_random(rng, ["svs", "lprs", "lpcs"][i % 3], rng.randrange(5, 200)))
+        cases.append(idx_random(rng, "idx" if i % 2 else "didx", rng.randrange(5, 120)))
+        cases.append(ns_random(rng, rng.randrange(5, 300)))
+        cases.append(ht_random(rng, rng.randrange(5, 300)))
+        cases.append(arr_random(rng, ["da", "ar", "ca"][i % 3], rng.randrange(5, 150)))
+        cases.append(list_random(rng, "isl" if i % 2 else "idl", rng.randrange(5, 150)))
     return cases
 
 
